@@ -22,6 +22,7 @@ import (
 	"bytes"
 	"encoding/json"
 	"fmt"
+	"io"
 	"os"
 	"regexp"
 	"strconv"
@@ -68,6 +69,8 @@ import (
 	"github.com/ozontech/file.d/zzverif/vkit"
 	insaneJSON "github.com/ozontech/insane-json"
 	"github.com/prometheus/client_golang/prometheus"
+	"go.uber.org/zap"
+	"go.uber.org/zap/zapcore"
 	corev1 "k8s.io/api/core/v1"
 )
 
@@ -88,11 +91,12 @@ func TestReplay(t *testing.T) { vkit.Replay(t) }
 
 // plugins is the list the property quantifies over: the 27 directories of
 // plugin/action plus the k8s input's multiline action.
+// (rapid.SampledFrom prefers the front of a list: the plugins with the most logic come first.)
 var plugins = []string{
-	"add_file_name", "add_host", "cardinality", "convert_date", "convert_log_level", "convert_utf8_bytes",
-	"debug", "decode", "discard", "flatten", "hash", "join", "join_template", "json_decode", "json_encode",
-	"json_extract", "keep_fields", "mask", "modify", "move", "parse_es", "parse_re2", "remove_fields",
-	"rename", "set_time", "split", "throttle", "k8s-multiline",
+	"k8s-multiline", "throttle", "modify", "mask", "hash", "join", "join_template", "decode", "json_extract",
+	"cardinality", "move", "json_decode", "convert_utf8_bytes", "parse_re2", "flatten", "rename", "split",
+	"convert_date", "keep_fields", "remove_fields", "json_encode", "convert_log_level", "parse_es", "set_time",
+	"debug", "add_host", "add_file_name", "discard",
 }
 
 // ---------------------------------------------------------------- case
@@ -234,6 +238,29 @@ func (c controller) Spawn(parent *pipeline.Event, nodes []*insaneJSON.Node) {
 // IncMaxEventSizeExceeded does what Pipeline.IncMaxEventSizeExceeded does.
 func (c controller) IncMaxEventSizeExceeded(lvs ...string) {
 	c.r.maxExc.WithLabelValues(lvs...).Inc()
+}
+
+// newLogger is the logger handed to the plugin: like fdkit.NewLogger its Fatal and
+// Panic become recoverable panics (fdkit.FatalPanic / fdkit.LoggedPanic), but it is
+// enabled from debug level on and really encodes every entry (to nowhere), so
+// that the plugins' logging of event content (debug action, "withnode" modes,
+// mask's debug line) is executed as it is under a real logger.
+type fatalHook struct{}
+
+func (fatalHook) OnWrite(e *zapcore.CheckedEntry, _ []zapcore.Field) {
+	panic(fdkit.FatalPanic{Msg: e.Message})
+}
+
+type panicHook struct{}
+
+func (panicHook) OnWrite(e *zapcore.CheckedEntry, _ []zapcore.Field) {
+	panic(fdkit.LoggedPanic{Msg: e.Message})
+}
+
+var logCore = zapcore.NewCore(zapcore.NewJSONEncoder(zap.NewProductionEncoderConfig()), zapcore.AddSync(io.Discard), zapcore.DebugLevel)
+
+func newLogger() *zap.Logger {
+	return zap.New(logCore, zap.WithFatalHook(fatalHook{}), zap.WithPanicHook(panicHook{}))
 }
 
 func pluginInfo(name string) (*pipeline.PluginStaticInfo, error) {
@@ -571,6 +598,9 @@ func exec(c Case) *vkit.Outcome {
 	if err != nil {
 		o.Class("rejected:" + c.Plugin)
 		o.Class("rejected-by-getconfig:" + c.Plugin)
+		if timing != nil {
+			fmt.Fprintf(os.Stderr, "REJECT %s getconfig: %v\n", c.Plugin, err)
+		}
 		return o
 	}
 	st := pipelineSettings(c.Settings)
@@ -582,7 +612,7 @@ func exec(c Case) *vkit.Outcome {
 	params := &pipeline.ActionPluginParams{
 		PluginDefaultParams: pipeline.PluginDefaultParams{PipelineName: name, PipelineSettings: st, MetricCtl: mctl},
 		Controller:          controller{r},
-		Logger:              fdkit.NewLogger().Sugar().Named("action").Named(c.Plugin),
+		Logger:              newLogger().Sugar().Named("action").Named(c.Plugin),
 		Index:               0,
 	}
 	plug, _ := info.Factory()
@@ -594,6 +624,9 @@ func exec(c Case) *vkit.Outcome {
 	r.ap = ap
 	if rec, _ := fdkit.CatchPanic(func() { ap.Start(config, params) }); rec != nil {
 		o.Class("rejected:" + c.Plugin)
+		if timing != nil {
+			fmt.Fprintf(os.Stderr, "REJECT %s start: %v CONFIG %s\n", c.Plugin, clip(fmt.Sprint(rec), 150), c.Config)
+		}
 		if _, fatal := rec.(fdkit.FatalPanic); fatal {
 			o.Class("rejected-by-start-fatal:" + c.Plugin)
 		} else {
